@@ -461,6 +461,33 @@ func (lc *layoutCtx) encodeStmts(stmts []ast.Stmt, out *[]string, positional map
 			if lc.mentions(s.Body, lc.buf) {
 				lc.fail(s, "the output buffer is written inside a conditional")
 			}
+			// ... and must not hand back bytes of its own: a conditional early return of something other than nil
+			// is a second encoder whose layout is not read here (a 'fast path')
+			var blocks []ast.Node
+			blocks = append(blocks, s.Body)
+			if s.Else != nil {
+				blocks = append(blocks, s.Else)
+			}
+			for _, blk := range blocks {
+				ast.Inspect(blk, func(n ast.Node) bool {
+					if _, isLit := n.(*ast.FuncLit); isLit {
+						return false
+					}
+					ret, ok := n.(*ast.ReturnStmt)
+					if !ok || len(ret.Results) == 0 {
+						return true
+					}
+					if id, isId := unparen(ret.Results[0]).(*ast.Ident); isId && id.Name == "nil" {
+						return true
+					}
+					if tv, ok := lc.info.Types[ret.Results[0]]; ok && tv.Type != nil {
+						if _, isSlice := tv.Type.Underlying().(*types.Slice); isSlice {
+							lc.fail(ret, "bytes are returned from inside a conditional: an alternative encoding whose layout is not the one extracted")
+						}
+					}
+					return true
+				})
+			}
 		case *ast.AssignStmt:
 			lc.encodeAssign(s, out, positional)
 		case *ast.RangeStmt:
@@ -1407,8 +1434,15 @@ func (ds *decState) loop(node ast.Stmt, body *ast.BlockStmt, rangeX, rangeKey, r
 		}
 		if c, ok := rhs.(*ast.CallExpr); ok && isAppendCall(c) && len(c.Args) == 2 {
 			target = as.Lhs[0]
+			if !lc.isConvOfCall(c.Args[1], reads[0]) {
+				lc.valueFail(as, "the element collected is %s, which is not the bytes read (only type conversions may stand between)", types.ExprString(c.Args[1]))
+				lc.fail(as, "what the loop collects is computed from the read, not the read itself")
+			}
 		} else if ix, ok := unparen(as.Lhs[0]).(*ast.IndexExpr); ok {
 			target = ix.X
+			if !lc.isConvOfCall(rhs, reads[0]) {
+				lc.fail(as, "what the loop collects is computed from the read, not the read itself")
+			}
 		}
 	}
 	if target == nil {
@@ -1481,6 +1515,18 @@ func (ds *decState) loop(node ast.Stmt, body *ast.BlockStmt, rangeX, rangeKey, r
 	default:
 		lc.fail(node, "unknown cursor method %s in a loop", m)
 	}
+}
+
+// isConvOfCall: e is the call itself, possibly wrapped in type conversions.
+func (lc *layoutCtx) isConvOfCall(e ast.Expr, call *ast.CallExpr) bool {
+	e = unparen(e)
+	if e == ast.Expr(call) {
+		return true
+	}
+	if x, _, ok := lc.conv(e); ok {
+		return lc.isConvOfCall(x, call)
+	}
+	return false
 }
 
 func isAppendCall(c *ast.CallExpr) bool {
